@@ -27,6 +27,7 @@ Definition case_chars (c : tcase) : list (N * nat) :=
   match tc_enc c with
   | U8 => map (fun cp => (cp, len_utf8 cp)) (tc_text c)
   | U16 => decode16 (tc_text c)
+  | U32 => map (fun cp => (cp, 1)) (tc_text c)
   end.
 
 Definition expand {A} (lens : list nat) (vals : list A) : list A :=
@@ -236,7 +237,7 @@ Definition well_formed16 (t : list N) : bool :=
   || forallb (fun u => negb (is_hi u || is_lo u)) t.
 
 Definition encode_chars (e : enc) (chs : list N) : list N :=
-  match e with U8 => chs | U16 => flat_map encode_utf16 chs end.
+  match e with U8 => chs | U16 => flat_map encode_utf16 chs | U32 => chs end.
 
 Definition reorder_expected (c : tcase) (stored : list nat) (pl : nat) (line : nat * nat) : option (list N) :=
   let '(a, b) := line in
@@ -253,6 +254,7 @@ Definition reorder_expected (c : tcase) (stored : list nat) (pl : nat) (line : n
 Definition unpaired_free (c : tcase) : bool :=
   match tc_enc c with
   | U8 => true
+  | U32 => true
   | U16 => forallb (fun u => negb (is_hi u || is_lo u)) (tc_text c) ||
            N_list_eqb (flat_map (fun ch => encode_utf16 (fst ch)) (decode16 (tc_text c))) (tc_text c)
   end.
@@ -384,7 +386,7 @@ Definition C16_judge (c : tcase) (o : text_obs) : bool :=
 Definition line_text (c : tcase) (line : nat * nat) : option (list N) :=
   match tc_enc c with
   | U16 => Some (firstn (snd line - fst line) (skipn (fst line) (tc_text c)))
-  | U8 => option_map (map fst) (chars_in 0 (fst line) (snd line) (case_chars c))
+  | U8 | U32 => option_map (map fst) (chars_in 0 (fst line) (snd line) (case_chars c))
   end.
 
 (* C17: summary queries *)
@@ -542,3 +544,32 @@ Definition iter16_program (legacy : bool) (t : list N) (ops : list bool) : res (
 
 Definition C18_iter_judge (t : list N) (ops : list bool) (out : res (list (option N))) : bool :=
   okb out (fun got => list_eqb (opt_eqb N.eqb) got (deque_run (map fst (decode16 t)) ops)).
+
+(* ------------------------------------------------------------------ *)
+(* model-internal differential (testing, not proof): the analysis in the case's encoding is the
+   per-unit expansion of the analysis of its character list in the ghost encoding U32 — the
+   executable form of the length-independence statements of Stmts3.v *)
+Definition LI_check (c : tcase) : bool :=
+  let chars := case_chars c in
+  let lens := map snd chars in
+  let cps := map fst chars in
+  let us i := fold_left Nat.add (firstn i lens) 0 in
+  match bidi_info_new (tc_enc c) (tc_ds c) (tc_text c) (tc_dir c),
+        bidi_info_new U32 (tc_ds c) cps (tc_dir c) with
+  | Ok b, Ok b' =>
+    cls_list_eqb (bi_classes b) (expand lens (bi_classes b')) &&
+    nat_list_eqb (bi_levels b) (expand lens (bi_levels b')) &&
+    list_eqb para_eqb (bi_paras b)
+             (map (fun p => {| p_start := us (p_start p); p_end := us (p_end p); p_level := p_level p |}) (bi_paras b'))
+  | Panic _, Panic _ => true
+  | _, _ => false
+  end &&
+  match para_bidi_info_new (tc_enc c) (tc_ds c) (tc_text c) (tc_dir c),
+        para_bidi_info_new U32 (tc_ds c) cps (tc_dir c) with
+  | Ok p, Ok p' =>
+    cls_list_eqb (pb_classes p) (expand lens (pb_classes p')) &&
+    nat_list_eqb (pb_levels p) (expand lens (pb_levels p')) &&
+    (pb_level p =? pb_level p') && Bool.eqb (pb_pure p) (pb_pure p')
+  | Panic _, Panic _ => true
+  | _, _ => false
+  end.
